@@ -129,7 +129,11 @@ func runC14(c *Ctx) (int, error) {
 	}
 	// build the race-enabled driver against /repo's working tree
 	racer := filepath.Join(c.Work, "racer")
-	cmd := exec.Command("go", "build", "-race", "-tags", "verif", "-o", racer, "./cmd/racer")
+	bargs := []string{"build", "-race", "-tags", "verif"}
+	if mf := os.Getenv("VERIF_MODFILE"); mf != "" {
+		bargs = append(bargs, "-modfile="+mf)
+	}
+	cmd := exec.Command("go", append(bargs, "-o", racer, "./cmd/racer")...)
 	cmd.Dir = filepath.Join(Root, "harness")
 	cmd.Env = append(os.Environ(), "GOFLAGS=-mod=mod", "GOPROXY=off", "GOSUMDB=off", "GOTOOLCHAIN=local", "CGO_ENABLED=1")
 	if out, err := cmd.CombinedOutput(); err != nil {
